@@ -15,6 +15,12 @@ Monitor : the property statement: own token or an exception; TransportError carr
           ISO-8859-1, gzip bytes with and without `Content-Encoding`, arbitrary bytes, text cut inside a character, UTF-16,
           JSON-RPC look-alikes - with a Content-Length (keep-alive / `Connection: close`), without one, in chunked transfer
           encoding; each followed by healthy calls, each also on a kept-alive connection.
+          200-reply BODIES of every kind (families `hb` and `nb`, see harness/peer.py).  HEALTHY replies are not only the
+          7-bit documents of the bundled server: raw multi-byte UTF-8 (bytes != characters), \\u escapes, both, indented,
+          tens of KiB, gzip-coded; in every framing - a call answered by one returns ITS OWN result `[token, text]`, and
+          such replies make up healthy tails (recovery).  Bodies that are NOT JSON text (ISO-8859-1, a character cut in
+          half, lone / over-long bytes, binary, undeclared gzip, bytes behind the document): the call must RAISE - the
+          damage sits inside the result, whatever is returned is made up - and later calls recover.
           Replies are also delivered IN PIECES (family `q`, see harness/peer.py): the peer pauses after the status line, after
           the header block, inside the body, before surplus bytes and after informational 1xx responses, each pause lasting
           until the client has acted (returned, or blocked reading) — so bytes of an exchange can reach the connection after
@@ -41,6 +47,8 @@ REQUIRED_THEOREMS = [
     "C19_gen_responseNotClosedUnread", "C19_split_transport_error", "C19_split_informational", "C19_split_cut_short_raises_incomplete",
     "C19_split_late_body_is_consumed", "C19_split_early_hints_then_final", "C19_split_extends",
     "C19_error_body_transport_error", "C19_error_body_irrelevant", "C19_error_body_recovery", "C19_gen_errorBodyUnused",
+    "C19_ok_body_own_result", "C19_ok_body_irrelevant", "C19_bad_body_raises", "C19_bad_body_recovery", "C19_bad_body_extends",
+    "C19_gen_replyDecodingStrict", "C19_gen_successReturnsParsed",
 ]
 
 # status codes of replies with a body (the property: "non-200 status with or without a body"); 204/304 are bodiless
@@ -48,9 +56,10 @@ ERR_CODES = [201, 202, 206, 301, 302, 400, 401, 403, 404, 500, 502, 503]
 BODY_KINDS = ["", "o", "f", "e"]  # text / own result / another token's result / error object
 BODILESS = [204, 304]
 # behaviour families of the property's alphabet (+ surplus bytes and hidden replies); instantiated per use
-FAMILIES = ["ok", "okc", "down", "cbr", "rst", "sl", "snl", "bl", "blz", "trunc", "empty", "nonjson", "xn", "sx", "sy", "sz", "q", "sb"]
+FAMILIES = ["ok", "okc", "down", "cbr", "rst", "sl", "snl", "bl", "blz", "trunc", "empty", "nonjson", "xn", "sx", "sy", "sz", "q", "sb", "hb", "nb"]
 UNREAD = ("bl", "sy", "sz", "xl")  # families that leave something unread (or an unread response) on a kept-alive connection
 TAIL = 3  # healthy calls appended to every script
+FRAMING_NAMES = {"l": "content-length", "n": "no-length-close", "c": "chunked", "k": "content-length+connection-close"}
 NON200 = re.compile(r"^(snl|sl|blz|bl|sx|sy|sz|sb)(\d+)")
 
 
@@ -66,6 +75,10 @@ def family(beh):
         return "q"
     if peermod.parse_sb(beh) is not None:
         return "sb"
+    if peermod.parse_hb(beh) is not None:
+        return "hb"
+    if peermod.parse_nb(beh) is not None:
+        return "nb"
     m = re.match(r"^(snl|sl|blz|bl|xn|xl|sx|sy|sz)\d", beh)
     return m.group(1) if m else beh
 
@@ -152,7 +165,24 @@ def instantiate(fam, rng, i):
         return instantiate_q(rng)
     if fam == "sb":
         return "sb%d_%s_%s" % (rng.choice(ERR_CODES), rng.choice(peermod.ERROR_BODY_KINDS), rng.choice(peermod.ERROR_FRAMINGS))
+    if fam == "hb":
+        return hb_draw(rng)
+    if fam == "nb":
+        return "nb_%s_%s" % (rng.choice(peermod.BAD_BODY_KINDS), rng.choice(peermod.ERROR_FRAMINGS))
     return fam
+
+
+def hb_draw(rng):
+    """A healthy reply of a drawn kind and framing (raw multi-byte text with a Content-Length twice as likely)."""
+    return "hb_%s_%s" % (rng.choice(peermod.OK_BODY_KINDS + ["raw", "mix"]), rng.choice(peermod.ERROR_FRAMINGS + ["l"]))
+
+
+def own_value(v, i, mine):
+    """The value is the result of call i's own request: its token (plain healthy replies) or the `[token, text]` of a
+    healthy `hb` reply the peer sent in answer to a request of this call."""
+    if type(v) is int and v == i:
+        return True
+    return any(peermod.parse_hb(b) is not None and v == peermod.ok_result(peermod.parse_hb(b)[0], i) for (b, _sh) in mine)
 
 
 def leaves_unread(beh):
@@ -165,7 +195,7 @@ def leaves_unread(beh):
 
 def classify(kind, val, J):
     if kind == "ok":
-        return "r%s" % (val,)
+        return ("r%s" % (val,)) if type(val) is int else "r?"
     if isinstance(val, J.TransportError):
         return "te%s" % (val.errcode,)
     if isinstance(val, J.ProtocolError):
@@ -225,20 +255,21 @@ def run_script(kind, scripts, tmpdir, J, cfg, tail=TAIL):
                 late = p.end_call()
             if late:
                 wait_late_bytes(proxy)
-            c = classify(k, v, J)
+            mine = [(b, sh) for (t, b, sh) in list(p.seen) if t == i]
+            own = k == "ok" and own_value(v, i, mine)
+            c = ("r%d" % i) if own else classify(k, v, J)
             outs.append(c)
-            if k == "ok" and v != i:
+            if k == "ok" and not own:
                 if unsolicited:
                     notes.append("call %d returned %r after an unsolicited complete reply (outside the property's fault alphabet)" % (i, v))
                 else:
-                    viol.append("call %d returned %r: a stale or foreign response" % (i, v))
+                    viol.append("call %d returned %s: a stale or foreign response" % (i, repr(v)[:200]))
             if k == "err" and isinstance(v, J.TransportError):
                 if v.url != url_part or not isinstance(v.errcode, int) or v.errcode == 200:
                     viol.append("TransportError of call %d carries url %r status %r" % (i, v.url, v.errcode))
             # the reply the client actually received for this call: the last request of this call the peer answered,
             # unless unread late bytes preceded that answer on the connection (shadowed) or the client refused to read
             # (an unread earlier response: http-state)
-            mine = [(b, sh) for (t, b, sh) in list(p.seen) if t == i]
             qf = q_facts(mine[-1][0]) if mine else None
             if qf is not None and not mine[-1][1] and c != "o:http-state":
                 # a reply delivered in pieces: a status other than 200 that the client was shown => TransportError with it
@@ -260,6 +291,10 @@ def run_script(kind, scripts, tmpdir, J, cfg, tail=TAIL):
                     if c != "te%d" % code:
                         viol.append("call %d was answered with status %d (%s) but %s instead of TransportError(%d)"
                                     % (i, code, mine[-1][0], ("returned %r" % (v,)) if k == "ok" else ("raised %s" % type(v).__name__), code))
+            if mine and not mine[-1][1] and c != "o:http-state" and peermod.parse_nb(mine[-1][0]) is not None and k == "ok":
+                # the reply this call received is a 200 whose body is not JSON text: there is no result of its request
+                viol.append("call %d was answered 200 with a body that is not JSON text (%s) but returned %r instead of raising"
+                            % (i, mine[-1][0], v))
             if any(b.startswith("xl") for (b, _sh) in mine):
                 unsolicited = True
         try:
@@ -307,7 +342,10 @@ def run(ctx):
                 "sl/snl/sx/sy/sz drawn per use from %s, body kinds from {text, own JSON-RPC result, another token's result, error "
                 "object}, bodiless 204/304 with and without `Content-Length: 0`; family sb = error bodies of every kind %s x framing "
                 "{Content-Length, no length + close, chunked transfer encoding, Content-Length + Connection: close}, every "
-                "combination once (alone or after a healthy keep-alive call) and drawn in the pairs and random scripts; followed by %d healthy calls (keep-alive or closing), "
+                "combination once; families hb = HEALTHY 200 replies whose JSON text is %s (result [token, text]) and nb = 200 "
+                "replies whose body is not JSON text %s, in the same four framings: every hb combination once as a three-call "
+                "healthy tail after a fault and once in first position / on a kept-alive connection, every nb combination once; "
+                "both drawn in the pairs, the random scripts and (hb) the healthy tails; sb: every combination once (alone or after a healthy keep-alive call) and drawn in the pairs and random scripts; followed by %d healthy calls (keep-alive or closing), "
                 "on a fresh scripted peer + fresh ServerProxy per script, over TCP and over a Unix socket; quick: every single "
                 "(code, body kind, length) combination, every pair of families, random scripts of length <= 8; thorough: all "
                 "triples of families plus random to length 12; a few sessions with an unsolicited complete reply (outside the "
@@ -317,7 +355,8 @@ def run(ctx):
                 "shorter than the announced length, or no length; non-200 bodies that are themselves complete HTTP replies): every "
                 "(final, delta) with every single cut and with every informational prefix, in first position and after a healthy "
                 "call, the healthy tail itself partly delivered in pieces; distinct_nontrivial = distinct scripts in "
-                "which a fault is followed by a healthy call" % (FAMILIES, ERR_CODES, peermod.ERROR_BODY_KINDS, TAIL))
+                "which a fault is followed by a healthy call" % (FAMILIES, ERR_CODES, peermod.ERROR_BODY_KINDS, peermod.OK_BODY_KINDS,
+                                                                peermod.BAD_BODY_KINDS, TAIL))
     old_to = socket.getdefaulttimeout()
     socket.setdefaulttimeout(30)
     tmpdir = tempfile.mkdtemp(prefix="jrv-c19-")
@@ -330,7 +369,7 @@ def run(ctx):
         return [[instantiate(f, rng, i) if f in FAMILIES or f == "xl" else f for f in call] for i, call in enumerate(fam_script)]
 
     def tails():
-        return [rng.choice([[], [], ["ok"], ["okc"], [rng.choice(HEALTHY_SPLIT)]]) for _ in range(TAIL)]
+        return [rng.choice([[], [], ["ok"], ["okc"], [rng.choice(HEALTHY_SPLIT)], [hb_draw(rng)], [hb_draw(rng)]]) for _ in range(TAIL)]
 
     try:
         sessions = []  # (script, tail length)
@@ -352,6 +391,28 @@ def run(ctx):
                     sessions.append(([["ok"], [b]] if sbn % 2 == 0 else [[b]], TAIL))
                     sessions.append(([[b], [b]], TAIL))
                 sbn += 1
+        # healthy 200 replies of every kind in every framing: as the healthy TAIL after a fault (recovery: at most the
+        # first may fail) - the same reply three times, and mixed - and in first position / on a kept-alive connection
+        hbn = 0
+        faults = [["sl500"], ["cbr", "ok"], ["nonjson"], ["bl204"], ["trunc"], ["rst", "sl404"], ["okc"], ["empty"]]
+        for kind_ in peermod.OK_BODY_KINDS:
+            for fr in peermod.ERROR_FRAMINGS:
+                b = "hb_%s_%s" % (kind_, fr)
+                sessions.append(([list(faults[hbn % len(faults)])], TAIL, [[b], [b], [b]]))
+                sessions.append(([[b]] if hbn % 2 == 0 else [["ok"], [b]], TAIL))
+                if ctx.thorough:
+                    sessions.append(([list(faults[(hbn + 3) % len(faults)])], TAIL, [[b], [hb_draw(rng)], [b]]))
+                    sessions.append(([[b], ["cbr", b]], TAIL))
+                hbn += 1
+        # 200 replies whose body is not JSON text, every kind in every framing: alone and on a kept-alive connection
+        for kind_ in peermod.BAD_BODY_KINDS:
+            for fr in peermod.ERROR_FRAMINGS:
+                b = "nb_%s_%s" % (kind_, fr)
+                sessions.append(([[b]] if hbn % 2 == 0 else [["hb_raw_l"], [b]], TAIL))
+                if ctx.thorough:
+                    sessions.append(([["ok"], [b]] if hbn % 2 == 0 else [[b]], TAIL))
+                    sessions.append(([[b], [b]], TAIL, [[hb_draw(rng)], [hb_draw(rng)], [hb_draw(rng)]]))
+                hbn += 1
         # replies delivered in pieces: every (final, delta) x every cut set with one or all cuts x {no informational
         # response, each single one}; alone and after a healthy keep-alive call (a cached connection)
         q_finals = [("ok", "=+~-"), ("s%d" % rng.choice(ERR_CODES), "=+~-n"), ("s%dh" % rng.choice([400, 404, 500, 502, 503]), "=+~-n"),
@@ -399,11 +460,11 @@ def run(ctx):
         for prefix in ([], [["ok"]], [["sl"]], [["okc"]], [["cbr", "ok"]], [["sy"], []]):
             sessions.append((inst(prefix + [["xl"], []]), 0))
             sessions.append((inst(prefix + [["cbr", "xl"], ["ok"]]), 0))
-        sessions = [(sc, t) for (sc, t) in sessions if not excluded(sc)]
+        sessions = [(s_[0], s_[1], (s_[2] if len(s_) > 2 else None)) for s_ in sessions if not excluded(s_[0])]
         kinds = ["tcp", "unix"]
         outside = 0
-        for si, (sc, tail) in enumerate(sessions):
-            full = sc + (tails() if tail else [])
+        for si, (sc, tail, fixed_tail) in enumerate(sessions):
+            full = sc + ((fixed_tail if fixed_tail is not None else tails()) if tail else [])
             if excluded(full):
                 full = sc + [[] for _ in range(tail)]
             for kind in (kinds if (ctx.thorough or si % 2 == 0) else [kinds[si % 4 // 2]]):
@@ -424,12 +485,22 @@ def run(ctx):
                 for n in notes:
                     if n.startswith("cut-short"):
                         ctx.hist["q/non200-cut-short-raised-other-than-TransportError"] += 1
+                for call in full[len(sc):]:
+                    for b in call:
+                        parsed = peermod.parse_hb(b)
+                        if parsed is not None:
+                            ctx.hist["healthy-tail/ok-200-body/kind/%s" % parsed[0]] += 1
+                            ctx.hist["healthy-tail/ok-200-body/framing/%s" % FRAMING_NAMES[parsed[1]]] += 1
                 for call in sc:
                     for b in call:
                         ctx.hist["beh/" + family(b)] += 1
                         m = NON200.match(b)
                         if m:
                             ctx.hist["status/%s" % m.group(2)] += 1
+                        for tag, parsed in (("ok-200-body", peermod.parse_hb(b)), ("bad-200-body", peermod.parse_nb(b))):
+                            if parsed is not None:
+                                ctx.hist["%s/kind/%s" % (tag, parsed[0])] += 1
+                                ctx.hist["%s/framing/%s" % (tag, FRAMING_NAMES[parsed[1]])] += 1
                         sb = peermod.parse_sb(b)
                         if sb is not None:
                             ctx.hist["error-body/kind/" + sb[1]] += 1
